@@ -111,7 +111,7 @@ func (b *Builder) TextShowGlyphs(seq *font.GlyphSeq) float64 {
 		}
 
 		b.emit(content.OpTextShowArray, out)
-		out = out[:0]
+		out = nil // the emitted operator keeps the array
 	}
 
 	xActual := 0.0
